@@ -24,7 +24,7 @@ theorem toFileInfo_WF (i : Info) : i.toFileInfo.WF = true := by
 theorem toFileInfo_inj {i j : Info} (h : i.toFileInfo = j.toFileInfo) : i = j := by
   cases i; cases j
   simp only [Info.toFileInfo, Codec.FileInfo.mk.injEq] at h
-  simp [h]
+  simp [h, Vector.toList_inj.1 h.2.2.2.2.2.2]
 
 theorem missingInput_WF : missingInput.WF = true := by decide
 
